@@ -10,7 +10,7 @@ import numpy as np
 import qcommon as qc
 import sv_pipeline
 
-ANGLE_TOL = math.pi * 1e-4   # per rotation: what get_angle_spec_from_float's default tolerance admits (see C19)
+ANGLE_TOL = 1e-4   # radians per rotation: get_angle_spec_from_float's documented default tolerance (C19)
 
 
 # ------------------------------------------------------------------ model values from Coq
@@ -222,14 +222,17 @@ def run(ctx):
     ctx.assume.append("vanilla flavour on generic hardware (no NV transpilation; with the NV compiler the statement "
                       "additionally rests on C07)")
     ctx.assume.append("set_qubit_state: the float -> (n, d) expansion is covered by C19; here the prepared state must be "
-                      "within pi*1e-4 (the expansion's actual default tolerance per rotation) of the documented state")
-    ctx.assume.append("the complex numbers with omega = e^{i pi/32} are a ring with omega^32 = -1 and 2 invertible "
-                      "(not formalised); parity_meas returns the default measure() Future (array future)")
+                      "within 1e-4 (the documented default tolerance per rotation, two rotations each contributing half "
+                      "its angle error) of the documented state")
+    ctx.assume.append("ring-generic theorems are axiom-free; C20_complex.v instantiates the Toffoli identity at the complex "
+                      "numbers using the axioms of Coq's reals; parity_meas returns the default measure() Future (array future)")
     if not ok:
         return ctx.finish()
     r = ctx.coqc("Gen_Toolbox.v")
     ctx.gen_obligation("Gen_Toolbox.v type-checks", r.ok, r.err[-300:])
     res = ctx.props("C20")
+    if res.ok:
+        qc.complex_props(ctx, "C20_complex")
     tb = json.load(open(jpath))
     model = model_values(ctx) if r.ok else None
     R = Runner(ctx)
